@@ -263,7 +263,7 @@ func c18CGen(rt *rapid.T) c18CCase {
 		cf.DurLive = "1h"
 	}
 	deltas := c18Deltas(cf)
-	nAddr := rapid.IntRange(2, 5).Draw(rt, "naddr")
+	addrs := c18GenAddrs(rt, 2, 5)
 	nr := rapid.IntRange(1, 4).Draw(rt, "rounds")
 	c := c18CCase{Conf: cf}
 	for r := 0; r < nr; r++ {
@@ -274,7 +274,7 @@ func c18CGen(rt *rapid.T) c18CCase {
 			n := rapid.IntRange(1, 12).Draw(rt, "nops")
 			var ops []c18Op
 			for i := 0; i < n; i++ {
-				ops = append(ops, c18Op{Kind: "q", Addr: rapid.IntRange(0, nAddr-1).Draw(rt, "addr"),
+				ops = append(ops, c18Op{Kind: "q", Addr: rapid.SampledFrom(addrs).Draw(rt, "addr"),
 					Live: rapid.Bool().Draw(rt, "live"), ErrK: rapid.IntRange(0, 1).Draw(rt, "errk")})
 			}
 			rd.Workers = append(rd.Workers, ops)
